@@ -38,6 +38,7 @@ func checkC04(w *World, r *Report) {
 	// a transaction reads its own writes: every reader of a transaction looks in the transaction's root (rule C01.1 part)
 	ru8 := r.Rule("C04.8", "read your own writes: lookups issued through a transaction (Has, Route, Reverse, Lookup, its iterators) read the transaction's own root, iterators their snapshot root, router methods the tree they loaded", 5)
 	lookupRootObligations(w, ru8)
+	checkC04TxnConstruction(w, r)
 }
 
 // ---- C04.1 ------------------------------------------------------------------------------------------------
@@ -702,5 +703,48 @@ func checkC04Isolation(w *World, r *Report, p *Proto) {
 			}
 			ru.Check("store tXn."+f.Name()+" in "+FuncName(fn), w.Pos(in.Pos()), "transaction-private fields are written only by the inner transaction itself or while it is constructed", own, map[bool]string{true: "own method or constructor", false: "foreign writer"}[own])
 		})
+	}
+}
+
+// checkC04TxnConstruction: a Txn value carries the right to write (write) and, through its settle methods, the right to
+// publish and to release the writer lock. Only Router.txnWith hands that out. Everything else that builds a Txn (Snapshot)
+// must build it field by field without the flag: copying an existing transaction value (`*txn`) clones those rights.
+func checkC04TxnConstruction(w *World, r *Report) {
+	ru := r.Rule("C04.9", "transactions are only constructed read-only outside txnWith: Txn.write is assigned a non-constant-false value only in Router.txnWith, and no function copies a whole Txn value (which would copy the write flag and with it the right to commit and to release the writer lock)", 1)
+	txnT := w.FoxType("Txn")
+	writeF := w.Field(txnT, "write")
+	if writeF == nil {
+		r.Unrecognised("C04.9: field Txn.write not found")
+		return
+	}
+	n := 0
+	for _, fn := range w.FoxFuncs() {
+		if isTestHelper(w, fn) {
+			continue
+		}
+		eachInstr(fn, func(in ssa.Instruction) {
+			switch x := in.(type) {
+			case *ssa.Store:
+				if _, f, ok := fieldOfAddr(x.Addr); ok && f == writeF {
+					n++
+					isFalse := false
+					if b, ok := constBool(x.Val); ok && !b {
+						isFalse = true
+					}
+					inFactory := fn.Name() == "txnWith"
+					ru.Check("store to Txn.write in "+FuncName(fn), w.InstrPos(x), "only the transaction factory sets the write flag", isFalse || inFactory, orDefault(map[bool]string{true: "factory or constant false"}[isFalse || inFactory], "write flag set from "+valStr(x.Val)))
+				}
+				// whole-struct copy: *dst = *src of type Txn
+				if namedOf(x.Val.Type()) == txnT && !isPointer(x.Val.Type()) {
+					if _, isConst := x.Val.(*ssa.Const); !isConst {
+						n++
+						ru.Fail("copy of a Txn value in "+FuncName(fn), w.InstrPos(x), "a transaction is never copied as a whole", "the copy inherits the write flag of "+valStr(x.Val)+": a snapshot made this way can write, commit and release the writer lock its parent still holds")
+					}
+				}
+			}
+		})
+	}
+	if n == 0 {
+		r.Unrecognised("C04.9: no store to Txn.write found")
 	}
 }
